@@ -163,6 +163,14 @@ def run_cases(prop, cases, out, drv, sb, label):
     reqs = [dict(op='pipeline', cfg=model_cfg(m, cfg), headers=['#'], title='T', mod='M', src=r['src'])
             for (_, m, cfg), r in zip(cases, rend)]
     models = drv.run(reqs)
+    hyps = common.ValidCheck().run([m for _, m, _ in cases])
+    if hyps is None: out.dist['hyp:validcheck-unavailable'] += len(cases)
+    else:
+        for (_, m, cfg), h in zip(cases, hyps):
+            guard = cfg.get('incl', {}).get('cpp_class', True) or not h['documented_class']
+            out.dist['hyp:Module.valid' if h['valid'] else 'hyp:not-valid'] += 1
+            out.dist['hyp:itemsWf' if h['wf'] else 'hyp:not-wf'] += 1
+            if h['valid'] and h['wf'] and guard: out.dist['hyp:inside-T_pipeline-domain'] += 1
     for (key, m, cfg), r, model in zip(cases, rend, models):
         real = impl.real_pipeline(sb, r['src'], impl.make_settings(cfg, headers=['#']), 'T', 'M')
         out.traces_validated += 1
